@@ -2,8 +2,11 @@
 use crate::fw::{LaneCtx, Verdict};
 use serde_json::Value;
 
+pub mod c06;
+pub mod c12;
 pub mod c13;
 pub mod c16;
+pub mod c20;
 
 pub struct Info {
     pub level: &'static str,
@@ -24,6 +27,9 @@ macro_rules! registry {
 }
 
 registry! {
+    "C06" => c06,
+    "C12" => c12,
     "C13" => c13,
     "C16" => c16,
+    "C20" => c20,
 }
